@@ -516,6 +516,7 @@ def _sentinel(ctx, E, shared, validated):
   measured = {}                    # (class, kind, group) -> worst relative dependence
   res_seen = []                    # (kind, wind amplitude, size / total tendency, size / natural scale, mismatch)
   lin_res_seen = []                # (kind, wind amplitude, mismatch) of (iii) on grids not resolving the product rule
+  alias_seen = []                  # (class, kind, wind amplitude, size, mismatch) of (iv) on the same grids
   div_margin, q_clip_err = np.inf, 0.0   # side conditions of T4.3/T4.4 on the generated humidity fields
 
   def totals(cls, eq_args, tref, st, one, iva=True, vmm=None):
@@ -674,6 +675,43 @@ def _sentinel(ctx, E, shared, validated):
           scale = max(np.abs(t[f]).max() for t in tc)
           mism = max(mism, float(np.abs(meas - pred).max() / scale))
       lin_res_seen.append((kind, amp, mism))
+    # (iv) ... and the aliasing-level dependence of the moist class itself (the other known finding on such grids) is not
+    # free either: every other term being linear in T_ref and cancelling by the validated laws, what remains is exactly the
+    # DEFECT of the product-rule laws, total(T_b) - total(T_a) = clip((R_v - R)·(T_b - T_a)·[(curl|div)_cos_lat(q·GS) -
+    # to_modal(product-rule form)]) (measured 2e-16 .. 2e-15 of the total tendency on the unchanged tree).  Any other
+    # T_ref dependence on a linear grid is reported under `moist-aliasing-mismatch`, which is not a known finding.
+    if kind not in pr_kinds:
+      sec2 = grid.sec2_lat
+      g = grid.cos_lat_grad(jnp.asarray(st['p']), clip=False)
+      gu, gv = grid.to_nodal(g[0]), grid.to_nodal(g[1])
+      qm_ = jnp.asarray(moist_tr[D.Q_KEY])
+      qn_ = grid.to_nodal(qm_)
+      gq = grid.cos_lat_grad(qm_, clip=False)
+      gq0, gq1 = grid.to_nodal(gq[0]), grid.to_nodal(gq[1])
+      qGS = (grid.to_modal(qn_ * gu * sec2), grid.to_modal(qn_ * gv * sec2))
+      lap_p = grid.to_nodal(grid.laplacian(jnp.asarray(st['p'])))
+      defect = dict(
+          divergence=np.asarray(grid.div_cos_lat(qGS, clip=False))
+          - np.asarray(grid.to_modal(sec2 * (gq0 * gu + gq1 * gv) + qn_ * lap_p)),
+          vorticity=np.asarray(grid.curl_cos_lat(qGS, clip=False)) - np.asarray(grid.to_modal(sec2 * (gq0 * gv - gq1 * gu))))
+      for nm in ('moist', 'cloud-no-condensate'):
+        if nm not in tots_by_name:
+          continue
+        tm = tots_by_name[nm]
+        mism = size = 0.0
+        for (ia, ib) in itertools.combinations(range(len(trefs)), 2):
+          dt = (trefs[ib] - trefs[ia])[:, None, None]
+          for f, o in defect.items():
+            pred = np.asarray(clip(jnp.asarray((specs.R_vapor - specs.R) * dt * o)))
+            meas = tm[ib][f] - tm[ia][f]
+            scale = max(np.abs(t[f]).max() for t in tm)
+            mism = max(mism, float(np.abs(meas - pred).max() / scale))
+            size = max(size, float(np.abs(pred).max() / scale))
+        alias_seen.append((nm, kind, amp, size, mism))
+        ctx.expect(mism <= RES_TOL, f'moist-aliasing-mismatch:{kind}',
+                   f'T_ref dependence of the {nm} class on a grid that does not resolve the product rule is not the closed '
+                   'form clip((R_v-R)·(T_b-T_a)·[(curl|div)_cos_lat(q·sec2·grad ln ps) - to_modal(product-rule form)]): '
+                   f'mismatch {mism:.3e} of the total tendency (size of the closed form {size:.3e})', dict(inp, cls=nm))
       ctx.expect(mism <= RES_TOL, f'cloud-residual-mismatch:{kind}',
                  'on a grid that does not resolve the product rule, the T_ref dependence of the cloud class minus that of '
                  'the same state without condensate is not the closed form clip(R·(T1-T2)·(curl|div)_cos_lat((q_l+q_i)·sec2·'
@@ -703,7 +741,16 @@ def _sentinel(ctx, E, shared, validated):
   ctx.notes.append('linear grids (known findings, bounded): moist-type momentum dependence above LINEAR_CEILING = '
                    f'{LINEAR_CEILING} is reported under tref-dependence-gross:* (not a known finding); cloud minus '
                    'cloud-without-condensate dependence vs closed form (mismatch): ' +
-                   (', '.join(f'{k} (amplitude {a:g}): {m:.1e}' for k, a, m in lin_res_seen) or 'no such scenario'))
+                   (', '.join(f'{k} (amplitude {a:g}): {m:.1e}' for k, a, m in lin_res_seen) or 'no such scenario') +
+                   '; moist-class dependence vs the defect of the product-rule laws (size | mismatch): ' +
+                   (', '.join(f'{c}/{k} (amplitude {a:g}): {sz:.1e} | {m:.1e}' for c, k, a, sz, m in alias_seen)
+                    or 'no such scenario'))
+  if alias_seen:
+    ctx.obligation('known findings on linear grids are pinned to their closed forms: moist dependence = (R_v-R)·dT_ref·(defect '
+                   'of the product-rule laws); cloud dependence = that + the cloud_split_residual closed form', 'hypothesis',
+                   all(m <= RES_TOL for *_, m in alias_seen) and all(m <= RES_TOL for *_, m in lin_res_seen),
+                   f'worst mismatch moist {max(m for *_, m in alias_seen):.1e}, cloud-minus-no-condensate '
+                   f'{max([m for *_, m in lin_res_seen] or [0.0]):.1e} of the total tendency')
   ctx.obligation('cloud_split_residual is non-zero on the real grid', 'hypothesis', ok_res, detail)
   ctx.obligation('side conditions of T4.3/T4.4 hold on every generated moist state: the humidity column is clipped like '
                  'the rest of the state (clip q = q) and 1 + (Cp_vapor/Cp - 1)·q stays away from 0 at every node '
